@@ -71,6 +71,11 @@ class VC:
             if isinstance(a, list) and len(a) == 3 and a[0] == "=" and isinstance(a[1], str) and a[1] in self.decls \
                     and self.decls[a[1]] == "Bool" and "guard" in a[1] and a[1] not in self.defs:
                 self.defs[a[1]] = a[2]
+        # solver-specific dialects (cbmc --z3 --outfile) print SSA definitions as declare-fun + (assert (= |sym| term))
+        for a in self.asserts:
+            if isinstance(a, list) and len(a) == 3 and a[0] == "=" and isinstance(a[1], str) and a[1].startswith("|") and a[1] in self.decls \
+                    and a[1] not in self.defs and "#" in a[1]:
+                self.defs[a[1]] = a[2]
         # float stored into an integer-typed object: CBMC introduces `bvfromfloat.k` with (assert (= ((_ to_fp e s) bvfromfloat.k) <float term>))
         self.fbits = {}
         for a in self.asserts:
@@ -780,6 +785,14 @@ class IntDom:
         """floor(x / 2^k) as an atom (cached per (polynomial, k))"""
         if 0 <= x.lo and x.hi < (1 << k):
             return None, IPoly({}, 0, 0, x.w)
+        if len(x.t) == 1:
+            # floor(floor(P / 2^k0) / 2^k) == floor(P / 2^(k0+k)): shifts of a shifted value are shifts of the original (byte-wise copies
+            # of a word then re-assemble to exactly that word)
+            (m, c), = x.t.items()
+            if c == 1 and len(m) == 1 and m[0] in self.defs and self.defs[m[0]][0] == "div2k":
+                _, base, k0 = self.defs[m[0]]
+                blo, bhi = self.poly_interval(base)
+                return self._hi(IPoly(dict(base), blo, bhi, x.w), k0 + k)
         sp = self.split_exact(x, k) if x.lo >= 0 else None
         if sp is not None:
             return None, sp[0]
